@@ -21,5 +21,6 @@ def run(idx, rep, tier):
     safediv.r_safediv(idx, rep, floor=4)
     misc2.r_basisguard(idx, rep)
     misc2.r_dupcond(idx, rep, [m.name for m in idx.lib_modules()], floor=3)
+    generic2.r_residualzero(idx, rep, [m.name for m in idx.lib_modules()], floor=0)      # expected count zero today; its mutant in the self-test is the positive example
     generic2.r_indextruth(idx, rep, [m.name for m in idx.lib_modules()], floor=25)
     unpack.r_unpack(idx, rep, floor=42)
